@@ -340,10 +340,11 @@ impl<D: Device, P: Protocol, S: Socket, TS: TimeSource> GenericCloud<D, P, S, TS
     fn crypto_housekeep(&mut self) -> Result<(), Error> {
         let mut msg = MsgBuffer::new(SPACE_BEFORE);
         let mut del: SmallVec<[SocketAddr; 4]> = smallvec![];
+        let mut del_init: SmallVec<[SocketAddr; 4]> = smallvec![];
         for addr in self.pending_inits.keys().copied().collect::<SmallVec<[SocketAddr; 4]>>() {
             msg.clear();
             match self.pending_inits.get_mut(&addr).unwrap().every_second(&mut msg) {
-                Err(_) => del.push(addr),
+                Err(_) => del_init.push(addr),
                 Ok(MessageResult::None) => (),
                 Ok(MessageResult::Reply) => self.send_to(addr, &mut msg)?,
                 Ok(_) => unreachable!(),
@@ -357,6 +358,10 @@ impl<D: Device, P: Protocol, S: Socket, TS: TimeSource> GenericCloud<D, P, S, TS
                 Ok(MessageResult::Reply) => self.send_to(addr, &mut msg)?,
                 Ok(_) => unreachable!(),
             }
+        }
+        // A failed handshake only ends that handshake, an established peer on the same address stays
+        for addr in del_init {
+            self.pending_inits.remove(&addr);
         }
         for addr in del {
             self.pending_inits.remove(&addr);
@@ -824,10 +829,18 @@ impl<D: Device, P: Protocol, S: Socket, TS: TimeSource> GenericCloud<D, P, S, TS
         // HOT PATH
         let src = mapped_addr(src);
         debug!("Received {} bytes from {}", data.len(), src);
-        let msg_result = if let Some(init) = self.pending_inits.get_mut(&src) {
-            // COLD PATH
-            init.handle_message(data)
-        } else if is_init_message(data.message()) {
+        let is_init = is_init_message(data.message());
+        // A pending handshake must not capture the sealed traffic of an established peer
+        let mut pending_result = None;
+        if is_init || !self.peers.contains_key(&src) {
+            if let Some(init) = self.pending_inits.get_mut(&src) {
+                // COLD PATH
+                pending_result = Some(init.handle_message(data))
+            }
+        }
+        let msg_result = if let Some(result) = pending_result {
+            result
+        } else if is_init {
             // COLD PATH
             let mut result = None;
             if let Some(peer) = self.peers.get_mut(&src) {
